@@ -24,7 +24,7 @@ import (
 // ---- C11: one outcome per case of a server batch, whatever goes wrong ----
 
 type vfC11Case struct {
-	N           int      `json:"n"`           // batch size
+	N           int      `json:"n"` // batch size
 	UseTLS      bool     `json:"useTLS"`
 	ServerFault string   `json:"serverFault"` // none, start-error, stdin-write, stdin-close, stdout-empty, stdout-truncated, stdout-oversize, stdout-garbage, no-cert, die
 	FaultAt     int      `json:"faultAt"`     // truncation offset / number of sends before the server dies
@@ -34,7 +34,7 @@ type vfC11Case struct {
 	Mismatch    []int    `json:"mismatch"`    // cases whose response deviates from the expectation
 	ClientErr   []int    `json:"clientErr"`   // cases for which the client reports an error result
 	RefServer   bool     `json:"refServer"`
-	Stderr      []string `json:"stderr"`      // raw stderr lines of a reference server (%d in a line is replaced by a batch index)
+	Stderr      []string `json:"stderr"` // raw stderr lines of a reference server (%d in a line is replaced by a batch index)
 	NoFinalEOL  bool     `json:"noFinalEOL"`
 }
 
@@ -79,10 +79,10 @@ func (p *vfFakeProc) die() {
 }
 
 type vfFakeStdin struct {
-	buf       bytes.Buffer
-	writeErr  error
-	closeErr  error
-	closed    int
+	buf      bytes.Buffer
+	writeErr error
+	closeErr error
+	closed   int
 }
 
 func (s *vfFakeStdin) Write(p []byte) (int, error) {
